@@ -98,6 +98,7 @@ type blk struct {
 	closed   bool
 	saved    bool
 	l0, l1   int // log range of this round's save stream
+	mids     []*blk // roots of this round that were saved while the round was still going on
 	root     util.Key
 	content  map[string]string
 	dead     map[string]bool
@@ -432,6 +433,33 @@ func (w *rworld) apply(op Op) {
 		w.saveOldest()
 	case "prune":
 		w.prune(op.N)
+	case "midsave":
+		// the round's state is saved while the round still goes on (and is saved again at its end): a root that
+		// was saved stays readable, also after the same trie has been saved once more
+		b := w.cur()
+		if b == nil || w.unsaved() != 1 {
+			return
+		}
+		for _, k := range b.kids {
+			if k.open {
+				return
+			}
+		}
+		root := append(util.Key{}, b.mpt.GetRoot()...)
+		c, _, cerr := content(util.NewMerklePatriciaTrie(b.ldb, util.Sequence(b.ver), root, statecache.NewEmpty()))
+		if cerr != nil || len(root) == 0 {
+			return
+		}
+		var err error
+		if w.guard("SaveChanges (mid-round)", func() { err = b.mpt.SaveChanges(context.Background(), w.pndb, false) }) {
+			return
+		}
+		if err != nil {
+			w.fail("c04.save", "mid-round-save-error", "saving round %d mid-way failed: %v", b.ver, err)
+			return
+		}
+		b.mids = append(b.mids, &blk{ver: b.ver, root: root, content: c, saved: true})
+		w.stats.Inc("probe.mid-round-save")
 	default:
 		b := w.cur()
 		if b == nil {
@@ -507,6 +535,11 @@ func (w *rworld) saveOldest() bool {
 	// ---- C04: complete after save (this and every earlier unpruned round)
 	if w.prop == "C04" {
 		w.checkRetained(w.pndb, idx, "c04.complete", "after-save")
+		for _, m := range b.mids {
+			if w.v == nil {
+				w.checkRound(w.pndb, m, "c04.complete", "mid-round-root-after-final-save")
+			}
+		}
 	}
 	// ---- C05 oracle 1: dead sets never intersect this or later roots
 	b.reach, _ = reachSet(w.pndb, b.root)
